@@ -29,6 +29,8 @@ func init() {
 				Body: func() { histFaults(d + 1) }, NeedCounters: []string{"stale-ignored", "reply-delivered", "retransmitted", "send-waited-for-a-peer", "abandoned-while-queued", "stale-after-queued-abandon-ignored", "given-up-after-loss-without-retry"}},
 			{Name: fmt.Sprintf("req-idwrap-hist-D%d", d), Mode: "hist", Bound: 0, Reset: kit.ResetNearIDWrap,
 				Body: func() { histWrap(d) }, NeedCounters: []string{"stale-ignored", "reply-delivered", "request-ids-wrapped"}},
+			{Name: fmt.Sprintf("req-context-opened-later-hist-D%d", d), Mode: "hist", Bound: 0, Reset: kit.ResetGlobals,
+				Body: func() { histLate(d) }, NeedCounters: []string{"context-opened-while-a-request-is-in-progress", "reply-delivered", "protostate"}},
 			{Name: "req-sched-send-recv-reply", Mode: "sched", Bound: b, Reset: kit.ResetGlobals, Body: schedSendRecvReply},
 			{Name: "req-sched-abandoned-recv-vs-fast-reply", Mode: "sched", Bound: b, Reset: kit.ResetGlobals, Body: schedFastReply},
 			{Name: "req-reply-before-transmission", Mode: "enum", Reset: kit.ResetGlobals, Body: replyBeforeTransmission, NeedCounters: []string{"guessed-reply-ignored"}},
@@ -83,6 +85,7 @@ func (m *mctx) recvCall() ([]byte, error) {
 }
 
 type world struct {
+	lateCtx  int // contexts that may still be opened by an event of the history
 	faults   bool
 	retry    time.Duration
 	wirePipe []int // connection of each message returned by the last newWire
@@ -195,6 +198,33 @@ func histWrap(depth int) {
 	kit.Must("Socket.Close", func() { _ = w.sock.Close() })
 }
 
+// histLate: the history starts with the socket alone (its own Send / Recv); up to two contexts are
+// opened by events of the history, possibly while a request of the socket (or of the first
+// context) is outstanding or answered-but-unread.  A new context starts with nothing: its Recv
+// fails with the protocol-state error, it never gets another context's reply, and its requests
+// and Close leave the others alone.
+func histLate(depth int) {
+	w := setupCfg(1, -1, 0)
+	w.lateCtx = 2
+	for d := 0; d < depth; d++ {
+		evs := w.events()
+		e := evs[kit.ChooseFree(len(evs))]
+		kit.Tracef("event %s", e.name)
+		kit.Observe("%s", e.name)
+		e.run()
+		kit.Quiesce()
+		w.settle()
+	}
+	for _, m := range w.ctxs {
+		if m.recv == nil && !m.closed {
+			w.doRecv(m)
+		}
+	}
+	kit.Quiesce()
+	w.settle()
+	kit.Must("Socket.Close", func() { _ = w.sock.Close() })
+}
+
 func hist(depth int) {
 	cfg := kit.ChooseFree(4)
 	retry := time.Duration(-1)
@@ -265,6 +295,21 @@ func (w *world) events() []event {
 	}
 	if w.deadline > 0 {
 		evs = append(evs, event{"advance:deadline", func() { kit.Sleep(w.deadline) }})
+	}
+	if w.lateCtx > 0 {
+		evs = append(evs, event{"open-context", func() {
+			cx, err := w.sock.OpenContext()
+			if err != nil {
+				kit.Failf("open-context", "OpenContext: %s", kit.ErrName(err))
+			}
+			w.lateCtx--
+			for _, m := range w.ctxs {
+				if m.ph != idle {
+					kit.Count("context-opened-while-a-request-is-in-progress")
+				}
+			}
+			w.ctxs = append(w.ctxs, &mctx{name: fmt.Sprintf("late%d", len(w.ctxs)), c: cx, s: w.sock})
+		}})
 	}
 	m0 := w.ctxs[0]
 	if m0.cur != 0 {
